@@ -6,7 +6,7 @@ branch c13, over the constants regenerated into `NV.Gen.C13`.  Quantification is
 buffer state satisfying the stated invariant (which the initial state satisfies and every step preserves), every
 byte stream and every way of cutting it into reads.
 -/
-import NV.C13.Lemmas5
+import NV.C13.Lemmas6
 
 namespace NV.C13
 
@@ -158,5 +158,63 @@ theorem editing_applied :
   ⟨telnetNeg_eq_edit, edit_sp_bs, edit_plain⟩
 
 example : telnetNeg [bBS, 97, 98, bBS, bDEL, bDEL, 99] = [99] := by decide
+
+/-- every event the backend can cause on one connection -/
+inductive AnyOp where
+  | send (b : List Byte) | read | line (b : List Byte) | extract
+
+/-- one event; the delivered line, if any, is returned -/
+def anyStep (s : S) : AnyOp → Except String (S × Option (List Byte))
+  | .send b => .ok ({ s with sock := s.sock ++ b }, none)
+  | .read => (getUserData s).map (fun r => (r.1, none))
+  | .line b => (addConsoleLine s b).map (fun s' => (s', none))
+  | .extract => getUserCommand s
+
+def anyRun (s : S) (acc : List (List Byte)) : List AnyOp → Except String (S × List (List Byte))
+  | [] => .ok (s, acc)
+  | op :: ops => match anyStep s op with
+    | .error e => .error e
+    | .ok (s', none) => anyRun s' acc ops
+    | .ok (s', some l) => anyRun s' (acc ++ [l]) ops
+
+/-- **buffer_writes_in_bounds, every interleaving** (line mode): for every port and every schedule of client sends, read
+    events, console blobs and command extractions — any bytes, any segmentation, any interleaving — no step accesses
+    memory outside `text[]`, `sb_buf[]`, get_user_data's `buf[]` or get_user_command's `buf[]`; the invariant
+    `0 ≤ text_start ≤ text_end ≤ MAX_TEXT-1` holds at the end, and every delivered line is shorter than MAX_TEXT
+    (**overlong_cut_or_discarded_bounded**: whatever the client sends, a delivered line has at most MAX_TEXT-1 bytes and
+    nothing more is ever buffered). -/
+theorem framing_never_crashes (p : Port) (ops : List AnyOp) :
+    ∃ s delivered, anyRun (S.init p) [] ops = .ok (s, delivered) ∧ Inv s ∧ ∀ l ∈ delivered, l.length + 1 ≤ MAXT := by
+  suffices H : ∀ s acc, Inv s → s.dec.fl.single = false → (∀ l ∈ acc, l.length + 1 ≤ MAXT) →
+      ∃ s' d, anyRun s acc ops = .ok (s', d) ∧ Inv s' ∧ ∀ l ∈ d, l.length + 1 ≤ MAXT from
+    H _ [] (init_inv p) rfl (fun l hl => by cases hl)
+  induction ops with
+  | nil => intro s acc h _ ha; exact ⟨s, acc, rfl, h, ha⟩
+  | cons op ops ih =>
+    intro s acc h hs ha
+    cases op with
+    | send b =>
+      exact ih _ acc ⟨h.textLen, h.se, h.eMax, h.dec⟩ hs ha
+    | read =>
+      obtain ⟨s', evs, h1, h2, h3⟩ := getUserData_ok' h
+      have : anyStep s .read = .ok (s', none) := by simp [anyStep, h1, Except.map]
+      simp only [anyRun, this]; exact ih _ acc h2 (by rw [h3]; exact hs) ha
+    | line b =>
+      obtain ⟨s', h1, h2, h3⟩ := addConsoleLine_ok' h b
+      have : anyStep s (.line b) = .ok (s', none) := by simp [anyStep, h1, Except.map]
+      simp only [anyRun, this]; exact ih _ acc h2 (by rw [h3]; exact hs) ha
+    | extract =>
+      obtain ⟨s', r, h1, h2, h3, h4⟩ := getUserCommand_ok h hs
+      have : anyStep s .extract = .ok (s', r) := h1
+      cases r with
+      | none => simp only [anyRun, this]; exact ih _ acc h2 h3 ha
+      | some l =>
+        simp only [anyRun, this]
+        refine ih _ (acc ++ [l]) h2 h3 ?_
+        intro x hx
+        rcases List.mem_append.mp hx with hx | hx
+        · exact ha x hx
+        · have : x = l := by simpa using hx
+          subst this; exact h4 x rfl
 
 end NV.C13
